@@ -11,6 +11,7 @@ mod util;
 
 mod barops;
 mod c01;
+mod c03x;
 mod c04s;
 mod c05;
 mod c06;
